@@ -44,6 +44,8 @@ def run(ctx) -> None:
     ctx.rule("R3", "tags filtered by <engine>.is_valid(tag, pattern) with the engine of the pattern")
     ctx.rule("R4", "no exception escapes is_valid for any tag text")
     ctx.rule("R5", "uniqueness check requested for branch scope / --set-version, against all tags")
+    ctx.rule("R7", "--ignore-vcs-tag is a flag that is off unless given; --tag-scope is unset unless given")
+    shapes.cli_option_rule(ctx, "R7", ["--ignore-vcs-tag", "--tag-scope"])
     ctx.rule("R6", "prerequisite: 'greatest' is taken under a total order that follows PEP 440 (C16/R1-R4, R8)")
     from sa.report import run_prerequisite
     run_prerequisite(ctx, "C16", ("R1", "R2", "R3", "R4", "R7", "R8"), "R6")
